@@ -342,6 +342,8 @@ impl VirtualSign<'_> {
             | State::ShowingPages => {
                 self.state = State::PixelsInProgress;
                 self.pages.clear();
+                self.pending_data.clear();
+                self.data_chunks = 0;
                 Some(Message::AckOperation(self.address, Operation::ReceivePixels))
             }
             _ => None,
@@ -416,8 +418,14 @@ impl VirtualSign<'_> {
         if !self.pending_data.is_empty() {
             let data = mem::take(&mut self.pending_data);
             if self.width > 0 && self.height > 0 {
-                let page = Page::from_bytes(self.width, self.height, data).expect("Error loading page");
-                self.pages.push(page);
+                match Page::from_bytes(self.width, self.height, data) {
+                    Ok(page) => self.pages.push(page),
+                    Err(e) => {
+                        // A chunk was lost or extra data arrived; the transfer cannot succeed.
+                        warn!("Vsign {:04X} discarding incomplete page: {}", self.address.0, e);
+                        self.state = State::PixelsFailed;
+                    }
+                }
             }
         }
     }
